@@ -42,6 +42,30 @@ var c08Programs = [][]string{
 	{"set:Pw1", "start", "set:Pw2", "restart", "new:0", "auth:0:Pw1", "probe:0", "auth:0:Pw2", "probe:0"},
 	{"set:Pw1", "start", "remove", "restart", "new:0", "probe:0", "set:Pw2", "restart", "new:1", "probe:1", "auth:1:Pw1", "auth:1:Pw2", "probe:1"},
 	{"start", "new:0", "cfg:0:Pw1", "cfg:0:Pw2", "new:1", "auth:1:Pw1", "probe:1", "auth:1:Pw2", "probe:1"},
+	// a connection that never authenticated, the password removed and another one set:
+	// what it may do while no password is required is not stated, but once a password
+	// is required again it has not presented it
+	{"set:Pw1", "start", "new:0", "probe:0", "remove", "probe:0", "set:Pw2", "probe:0", "auth:0:Pw1", "probe:0", "auth:0:Pw2", "probe:0"},
+	{"set:Pw1", "start", "new:0", "remove", "probe:0", "probe:0", "set:Pw1", "probe:0", "new:1", "probe:1"},
+	// the password re-applied or changed by an application goroutine (bgset) or by an
+	// authorized client (bgcfg) WHILE another client connects and tries its luck: there
+	// is no moment at which the gate is open
+	{"set:Pw1", "start", "bgset:Pw1", "new:0", "probe:0", "auth:0:wrong", "probe:0", "join", "auth:0:Pw1", "probe:0"},
+	{"set:Pw1", "start", "bgset:Pw2", "new:0", "probe:0", "auth:0:wrong", "probe:0", "join", "auth:0:Pw2", "probe:0"},
+	{"set:Pw1", "start", "new:0", "auth:0:Pw1", "bgcfg:0:Pw1", "new:1", "probe:1", "auth:1:wrong", "probe:1", "join", "probe:0"},
+	{"set:Pw1", "start", "new:1", "bgset:Pw1", "auth:1:Pw", "probe:1", "auth:1:Pw1x", "probe:1", "join", "auth:1:Pw1", "probe:1"},
+}
+
+// c08Concurrent: programs with a background step need one more deviation (the
+// background thread must be suspended inside the setter AND the new connection's
+// goroutine preferred over it).
+func c08Concurrent(prog []string) bool {
+	for _, st := range prog {
+		if strings.HasPrefix(st, "bg") {
+			return true
+		}
+	}
+	return false
 }
 
 func c08RuntimeExplorer(prog []string, bound int) *sched.Explorer {
@@ -54,6 +78,7 @@ func c08RuntimeExplorer(prog []string, bound int) *sched.Explorer {
 			d := srv.NewDouble()
 			s := srv.NewServer(d)
 			cur := ""
+			alt := "\x00" // the password a background step is installing right now (none: NUL)
 			running := false
 			clients := map[string]*sched.Client{}
 			authorized := map[string]bool{}
@@ -68,6 +93,22 @@ func c08RuntimeExplorer(prog []string, bound int) *sched.Explorer {
 				case "remove":
 					s.RemoveRequirePass()
 					cur = ""
+				case "bgset":
+					pw := p[1]
+					alt = pw
+					vrt.Go("application", func() { s.SetRequirePass(pw) })
+				case "bgcfg":
+					cl, pw := clients[p[1]], p[2]
+					if cl == nil {
+						continue
+					}
+					alt = pw
+					vrt.Go("configurator", func() { cl.Do("CONFIG", "SET", "requirepass", pw) })
+				case "join":
+					vrt.WaitQuiet()
+					if alt != "\x00" {
+						cur, alt = alt, "\x00"
+					}
 				case "start":
 					if err := s.Start(); err != nil {
 						fail("harness", pos+": Start: "+err.Error())
@@ -140,6 +181,13 @@ func c08RuntimeExplorer(prog []string, bound int) *sched.Explorer {
 							continue // no password required: no expectation
 						}
 						good := p[0] == "auth" && p[2] == cur
+						if alt != "\x00" && alt != cur && p[0] == "auth" && (p[2] == cur || p[2] == alt) {
+							// the password is being changed right now: old and new may both be refused or accepted
+							if r.Reply.Equal(resp.S("OK")) {
+								authorized[p[1]] = true
+							}
+							continue
+						}
 						switch {
 						case good && !r.Reply.Equal(resp.S("OK")):
 							fail("good-password-refused", fmt.Sprintf("%s: the required password is %q and AUTH with exactly it answered %s (program %v)", pos, cur, r.Reply, prog))
@@ -151,6 +199,9 @@ func c08RuntimeExplorer(prog []string, bound int) *sched.Explorer {
 					case "probe":
 						reached := len(d.Calls) > calls
 						calls = len(d.Calls)
+						if cur == "" && !authorized[p[1]] {
+							continue // no password required right now: no expectation for a connection that never authenticated
+						}
 						if authorized[p[1]] && (r.Reply.IsError() || !reached) {
 							fail("refused-after-auth", fmt.Sprintf("%s: the connection is authorized but GET answered %s (program %v)", pos, r.Reply, prog))
 						}
